@@ -66,6 +66,9 @@ def build(C, forest, labels, cons, counter, path, pre):
 
 
 def unit(u, res):
+    if u[0] in ('classify', 'classifyp'):
+        import c09
+        return c09.unit(u, res)
     if u[0] == 'origin':
         return unit_origin(u, res)
     if u[0] == 'target':
@@ -339,6 +342,9 @@ def replay_names(ce):
 
 def replay_ce(ce):
     """native comparison of all ten iterators with a reference occurrence list on probe programs covering every class order"""
+    if ce.get('classify'):
+        import c09
+        return c09.replay_ce(ce)
     if 'source' in ce or ce.get('key', '').startswith('operator reports'):
         return replay_names(ce)
     probes = {
@@ -410,6 +416,12 @@ def main():
     for shapes in [[a] for a in eshapes]:
         for mutable in (False, True):
             units.append(('origin', 'FunctionIdentifier', 'f', shapes, mutable, 'hashmap', timeout_ms, seed, 'notfound_other'))
+    # the classification itself is made by the tree builder: an identifier is an assignment target / applied function / read variable by what follows
+    # it, whatever precedes it (shared with C09)
+    for nxt in ['SLOT', 'END', 'Identifier', 'Float', 'Int', 'Boolean', 'String']:
+        units.append(('classify', nxt, timeout_ms, seed))
+        for prefix in ('p', '1 +', '1 ;', '!', 'p q'):
+            units.append(('classifyp', nxt, prefix, timeout_ms, seed))
     for op in c11.ASSIGN:
         for tk in TARGET_KINDS:
             units.append(('target', op, tk, timeout_ms, seed))
